@@ -69,7 +69,7 @@ def run(ctx):
         shutil.rmtree(droot, ignore_errors=True)
     for i in range(n):
         root = ctx.scratch(f"w{i}")
-        ws = gen.gen_workspace(root, ctx.rng, depth=ctx.rng.randint(1, 3), venv=(i % 2 == 0))
+        ws = gen.gen_workspace(root, ctx.rng, depth=ctx.rng.randint(1, 3), venv=(i % 2 == 0), indirect_multi=True)
         materialize(ws)
         one(ctx, ws.root, ws.abs_files(), ws.files, generated=True, spec=ws.spec)
         ctx.sample({"spec": ws.spec})
@@ -152,9 +152,11 @@ def one(ctx, root, abs_files, rel_files, generated, spec):
                 if m.ok:
                     for d in m.defs:
                         ndefs[d["name"]] = ndefs.get(d["name"], 0) + 1
+        skip_files = set()
+
         def sweep():
             for f, t in sorted(abs_files.items()):
-                if not f.endswith(".py") or "/.venv/" in f:
+                if not f.endswith(".py") or "/.venv/" in f or f in skip_files:
                     continue
                 m = FileModel(t, f)
                 if not m.ok or not m.usages:
@@ -300,6 +302,15 @@ def one(ctx, root, abs_files, rel_files, generated, spec):
                 k2d, d2k = ident_maps(abs_files)
                 ctx.count("import_only_edits")
                 sweep()
+                if ctx.rng.random() < 0.5:
+                    # the tab is closed without saving: the file on disk (with the import) is what counts again
+                    # (the index keeps the records of the buffer version - lines included - so the identity maps stay as they
+                    # are; what changes is the text the server reads for the conftest's imports)
+                    srv.did_close(cf)
+                    skip_files.add(cf)        # positions inside the discarded buffer itself mean nothing any more
+                    ctx.count("closed_without_saving")
+                    ctx.nontrivial(("closed_without_saving",))
+                    sweep()
         ctx.count("workspaces")
     finally:
         un = srv.unanswered()
